@@ -22,7 +22,7 @@ fn control(c: &DescCase, cen: &mut Census) {
     let hl = c.hash_labels();
     for w in worlds(&c.keys, &hl, &c.afters, &c.olders, false) {
         let spend = make_spend(c.spk.clone(), w.locktime, w.sequence);
-        let sat = WorldSat { world: &w, spend: &spend, sign: &c.sign, schnorr_all: false, lie_locks: false };
+        let sat = WorldSat { world: &w, spend: &spend, sign: &c.sign, schnorr_all: false, lie_locks: false, cap: crate::world::SignCap::All };
         if let Ok(Ok((witness, script_sig))) = guard(|| c.desc.get_satisfaction_mall(&sat)) {
             if let Ok(tr) = verify_input(&spend, script_sig.as_bytes(), &witness, true) {
                 let sigma = sigma_adv(c, &tr.initial_stack);
@@ -55,7 +55,7 @@ fn check_desc(rep: &Report, c: &DescCase, thorough: bool, cen: &mut Census) {
     let dsx = c.d.sexpr();
     for w in worlds(&c.keys, &hl, &c.afters, &c.olders, thorough) {
         let spend = make_spend(c.spk.clone(), w.locktime, w.sequence);
-        let sat = WorldSat { world: &w, spend: &spend, sign: &c.sign, schnorr_all: false, lie_locks: false };
+        let sat = WorldSat { world: &w, spend: &spend, sign: &c.sign, schnorr_all: false, lie_locks: false, cap: crate::world::SignCap::All };
         bump(cen, "evaluations");
         let (witness, script_sig) = match guard(|| c.desc.get_satisfaction(&sat)) {
             Ok(Ok(x)) => x,
